@@ -414,6 +414,14 @@ class InstanceWriteProvider(BaseProvider):
                             not _eq_item(prop.value, original_instance[pn]):
                         self.validate_reference_property_endpoint_exists(prop,)
 
+        # Namespaces other than the request namespace that hold a copy of the
+        # association instance before it is modified.
+        old_assoc_namespaces = []
+        if self.is_association(creation_class):
+            old_assoc_namespaces = \
+                self.find_multins_association_ref_namespaces(
+                    original_instance, namespace)
+
         # Update the properties in the original instance from properties
         # in the modified instance
         original_instance.update(modified_instance.properties)
@@ -432,7 +440,20 @@ class InstanceWriteProvider(BaseProvider):
                 # instance in each of these namespaces with specific path.
                 self.modify_multi_namespace_instance(
                     original_instance, assoc_namespaces)
-                return
+            else:
+                instance_store.update(original_instance.path,
+                                      original_instance)
+            # Remove the copies of the instance in the namespaces that its
+            # reference properties no longer name.
+            new_assoc_namespaces = NocaseList(assoc_namespaces)
+            for ns in old_assoc_namespaces:
+                if ns not in new_assoc_namespaces:
+                    old_path = original_instance.path.copy()
+                    old_path.namespace = ns
+                    old_store = self.cimrepository.get_instance_store(ns)
+                    if old_store.object_exists(old_path):
+                        old_store.delete(old_path)
+            return
 
         # Replace the instance in the CIM repository with the local copy.
         instance_store.update(original_instance.path, original_instance)
